@@ -79,7 +79,7 @@ var FaultKinds = []string{
 	"omit-param-TYPE", "omit-param-ENUM", "omit-param-MACRO", "omit-param-PASTE", "omit-param-TAG", "omit-param-Tags", "omit-param-Protocol",
 	"omit-param-Method", "omit-param-JSIGHT", "omit-param-BaseUrl", "omit-param-SERVER", "omit-param-Title", "omit-param-Version", "omit-param-URL",
 	"undefined-type-shortcut", "undefined-type-array", "undefined-type-rule", "undefined-type-allOf", "undefined-type-param", "undefined-type-or",
-	"undefined-enum", "undefined-macro", "undefined-tag", "undefined-tag-like-auto", "undefined-tag-second-Tags", "similar-path-leading-param", "dup-through-second-PASTE", "second-Body-after-own-body", "second-Title-after-empty-value", "second-Version-after-empty-value", "bad-rule-value-in-used-type",
+	"undefined-enum", "undefined-macro", "undefined-tag", "undefined-tag-like-auto", "undefined-tag-second-Tags", "similar-path-leading-param", "dup-through-second-PASTE", "second-Body-after-own-body", "second-Title-after-empty-value", "second-Version-after-empty-value", "bad-rule-value-in-used-type", "path-property-of-object-type",
 }
 
 // InjectFault puts exactly one fault of a drawn kind into a copy of the valid
@@ -283,6 +283,25 @@ func InjectFaultOfKind(t *rapid.T, doc0 *Doc, only string) (*Doc, Fault, bool) {
 				c := &Dir{ID: f.id(), Kw: "Body", Schema: &Schema{Notation: "any", AsParam: true}}
 				d.Children = append(d.Children, c)
 				return []int{d.ID, c.ID}
+			})
+		}
+		if d.Kw == "Path" && parent != nil && d.Schema != nil && d.Schema.Obj != nil && len(d.Schema.Obj.Props) >= 1 {
+			// a path parameter described by an object type: the fault belongs to this
+			// Path directive, whichever other Path directives describe the same path
+			add("path-property-of-object-type", func() []int {
+				tn := ""
+				for _, x := range doc.Top {
+					if x.Kw == "TYPE" && x.Schema != nil && x.Schema.Root == "obj" && len(x.Params) > 0 {
+						tn = x.Params[0]
+					}
+				}
+				if tn == "" {
+					tn = fmt.Sprintf("@zzobj%d", f.id())
+					doc.Top = append(doc.Top, &Dir{ID: f.id(), Kw: "TYPE", Params: []string{tn}, Schema: &Schema{Notation: "jsight", Root: "obj", Obj: &Obj{Props: []Prop{{Key: "k", V: Val{Kind: "int", Int: 1}}}}}})
+				}
+				i := rapid.IntRange(0, len(d.Schema.Obj.Props)-1).Draw(t, "pathProp")
+				d.Schema.Obj.Props[i].V = Val{Kind: "ref", Ref: tn}
+				return []int{d.ID}
 			})
 		}
 		if d.Kw == "Path" && parent != nil && d.Schema != nil && d.Schema.Obj != nil && len(d.Schema.Obj.Props) >= 2 {
